@@ -81,6 +81,11 @@ int32_t jls_copy(const char * src, const char * dst,
 
     while (offset < offset_end) {
         rc = jls_raw_rd_header(rd, &hdr);
+        if ((0 == rc) && (((int64_t) hdr.payload_length) > (offset_end - offset))) {
+            // passes the header CRC but cannot be a chunk of this file (found while
+            // resynchronizing): do not size the buffer from it
+            rc = JLS_ERROR_MESSAGE_INTEGRITY;
+        }
         if (rc) {
             MSG_ERROR("jls_raw_rd_header", rc);
             jls_raw_chunk_seek(rd, offset + 1);
